@@ -61,6 +61,45 @@ def digit_ranges(limit=0x2FFFF):
     return _DIGITS
 
 
+_CATS = {}
+
+
+def category_ranges(cat, limit=0x2FFFF):
+    """code point ranges of a regex category for str patterns without re.ASCII, from this interpreter's Unicode tables (what `re`
+    itself uses): \\d = str.isdecimal, \\s = str.isspace, \\w = str.isalnum or '_'; clipped to z3's character range"""
+    if cat in (sc.CATEGORY_DIGIT, sc.CATEGORY_NOT_DIGIT):
+        return digit_ranges(limit)
+    key = "space" if cat in (sc.CATEGORY_SPACE, sc.CATEGORY_NOT_SPACE) else "word" if cat in (sc.CATEGORY_WORD, sc.CATEGORY_NOT_WORD) else None
+    if key is None:
+        raise Unsupported(f"category {cat}")
+    if key not in _CATS:
+        pred = (lambda ch: ch.isspace()) if key == "space" else (lambda ch: ch.isalnum() or ch == "_")
+        out, start = [], None
+        for c in range(limit + 2):
+            d = c <= limit and pred(chr(c))
+            if d and start is None:
+                start = c
+            elif not d and start is not None:
+                out.append((start, c - 1))
+                start = None
+        _CATS[key] = out
+    return _CATS[key]
+
+
+_ASCII_CATS = {"digit": [(48, 57)], "space": [(9, 13), (32, 32)], "word": [(48, 57), (65, 90), (95, 95), (97, 122)]}
+
+
+def _cat_ranges(cat, ascii_only):
+    neg = cat in (sc.CATEGORY_NOT_DIGIT, sc.CATEGORY_NOT_SPACE, sc.CATEGORY_NOT_WORD)
+    if ascii_only:
+        key = {sc.CATEGORY_DIGIT: "digit", sc.CATEGORY_NOT_DIGIT: "digit", sc.CATEGORY_SPACE: "space", sc.CATEGORY_NOT_SPACE: "space",
+               sc.CATEGORY_WORD: "word", sc.CATEGORY_NOT_WORD: "word"}.get(cat)
+        if key is None:
+            raise Unsupported(f"category {cat}")
+        return _ASCII_CATS[key], neg
+    return category_ranges(cat), neg
+
+
 def _zchr(c):
     return z3.Unit(z3.CharFromBv(z3.BitVecVal(c, 18)))
 
@@ -81,11 +120,13 @@ def cls_to_re(items, ascii_only=False):
             parts.append(z3.Re(chr(av)))
         elif op is sc.RANGE:
             parts.append(z3.Range(chr(av[0]), chr(av[1])))
-        elif op is sc.CATEGORY and av is sc.CATEGORY_DIGIT:
-            if ascii_only:
-                parts.append(z3.Range("0", "9"))
-            else:  # `\\d` of a str pattern matches every Unicode decimal digit
-                parts.extend(_zrange(a, b) for a, b in digit_ranges())
+        elif op is sc.CATEGORY:
+            # `\\d` / `\\s` / `\\w` (and their complements) of a str pattern range over Unicode unless re.ASCII is set
+            rs, cneg = _cat_ranges(av, ascii_only)
+            if len(rs) > 100:
+                raise Unsupported("Unicode \\w as a z3 regular expression (about 770 ranges: the string solver does not finish); the bounded matcher handles it")
+            r_ = union(_zrange(a, b) for a, b in rs)
+            parts.append(z3.Intersect(any_char(), z3.Complement(r_)) if cneg else r_)
         else:
             raise Unsupported(f"class item {op} {av}")
     r = union(parts)
@@ -277,9 +318,10 @@ class BoundedMatcher:
                 conds.append(x == self.lit(av))
             elif op is sc.RANGE:
                 conds.append(z3.And(z3.UGE(x, self.lit(av[0])), z3.ULE(x, self.lit(av[1]))))
-            elif op is sc.CATEGORY and av is sc.CATEGORY_DIGIT:
-                rs = [(48, 57)] if self.ascii_only else digit_ranges()
-                conds.extend(z3.And(z3.UGE(x, self.lit(a)), z3.ULE(x, self.lit(b))) for a, b in rs)
+            elif op is sc.CATEGORY:
+                rs, cneg = _cat_ranges(av, self.ascii_only)
+                inside = z3.Or(*[z3.And(z3.UGE(x, self.lit(a)), z3.ULE(x, self.lit(b))) for a, b in rs])
+                conds.append(z3.Not(inside) if cneg else inside)
             else:
                 raise Unsupported(f"class item {op} {av}")
         r = z3.Or(*conds) if conds else z3.BoolVal(False)
